@@ -998,6 +998,21 @@ func (e *exec) stop(kind string, n int) {
 	e.mu.Unlock()
 	if kind == "K" {
 		e.ad.cancel()
+		// cancellation alone must terminate the discipline (Err() closes) within bounded virtual
+		// time; Stop() is only called afterwards, "to wait for completion"
+		for i := 0; i < 50; i++ {
+			e.settleOnce()
+			e.pollErr()
+			e.mu.Lock()
+			closed := e.tr.ErrClosed
+			e.mu.Unlock()
+			if closed {
+				break
+			}
+		}
+		e.mu.Lock()
+		e.tr.CancelTookEffect = e.tr.ErrClosed
+		e.mu.Unlock()
 	}
 	calls := 1
 	if n == 2 {
